@@ -369,20 +369,6 @@ private theorem evalAll_congr (ps : List Ex) (m m' : Mem)
   intro p hp
   exact C27_sem_eval p m m' (fun r hr k => h r ⟨p.erase, List.mem_map.2 ⟨p, hp, rfl⟩, hr⟩ k)
 
-namespace Sem
-/-- every cell is either equal in `n`,`n'` or untouched relative to the bases `m`,`m'` -/
-def SameOrUntouched (m m' n n' : Mem) : Prop := ∀ r k, n r k = n' r k ∨ (n r k = m r k ∧ n' r k = m' r k)
-
-theorem rel_refl (m m' : Mem) : SameOrUntouched m m' m m' := fun _ _ => Or.inr ⟨rfl, rfl⟩
-
-theorem rel_upd {m m' n n' : Mem} (h : SameOrUntouched m m' n n') (c : Ref) {v v' : Val} (hv : v = v') :
-    SameOrUntouched m m' (upd n c v) (upd n' c v') := by
-  intro r k
-  unfold upd
-  by_cases hc : r = c.region ∧ k = c.index
-  · simp [hc, hv]
-  · simp only [hc, if_false]; exact h r k
-end Sem
 
 open Sem in
 /-- **frame property**: a region that the instruction neither `Writes` nor `Captures` is left unchanged,
@@ -514,21 +500,6 @@ theorem C27_sem_reported_sets_sound (sigs : Sigs) (i : XInstr) (readout : List V
 
 /-! ### the expression clause is tight: every occurring region can matter -/
 
-namespace Sem
-/-- an executable expression of shape `e`: indices 0, unary operators the identity, binary `+` -/
-def liftE : E → Ex
-  | .addr r => .addr ⟨r, 0⟩
-  | .leaf => .const 0
-  | .un e => .un id (liftE e)
-  | .bin l r => .bin (· + ·) (liftE l) (liftE r)
-
-/-- number of `Address` leaves of region `r` -/
-def count (r : Region) : E → Nat
-  | .addr x => if x = r then 1 else 0
-  | .leaf => 0
-  | .un e => count r e
-  | .bin l x => count r l + count r x
-end Sem
 
 open Sem in
 private theorem liftE_erase (e : E) : (liftE e).erase = e := by
@@ -561,7 +532,10 @@ theorem C27_sem_eval_tight (e : E) (r : Region) (h : Occurs e r) :
   refine ⟨liftE e, fun _ _ => 0, fun reg _ => if reg = r then 1 else 0, liftE_erase e, ?_, ?_⟩
   · intro r' hr k; simp [hr]
   · rw [(eval_liftE e r).1, (eval_liftE e r).2]
-    have := count_pos e r h
-    omega
+    have hpos := count_pos e r h
+    intro heq
+    have h2 : (0 : Int) < (count r e : Int) := Int.natCast_pos.2 hpos
+    rw [← heq] at h2
+    exact absurd h2 (by decide)
 
 end QV.C27
